@@ -57,7 +57,7 @@ def summary(prog, lf, mut_params):
     base = _outcome_values(prog, lf, (), mut_params)
     out = {"base": base, "by_class": None, "class_param": None}
     cp = _class_param(lf)
-    if base is not None and cp is not None and any(v[0] is None for v in base.values()):
+    if base is not None and cp is not None and any(v[0] is None or v[0].op == "adv" for v in base.values()):
         per = {}
         for cname in ("ELF32", "ELF64"):
             per[cname] = _outcome_values(prog, lf, (("var", T.param(cp), cname),), mut_params)
@@ -89,7 +89,7 @@ def apply_effect_summary(prog, an, st, site, lf, callee, generics, args, arg_lvs
     for i in mut_idx:
         okv, errv, has_ok = s["base"][i + 1]
         new_ok = None
-        if okv is not None:
+        if okv is not None and not (okv.op == "adv" and s["by_class"] is not None):
             new_ok = prog.subst(an, st, okv, sub_args)
         elif s["by_class"] is not None:
             cls = args[s["class_param"] - 1]
@@ -104,6 +104,8 @@ def apply_effect_summary(prog, an, st, site, lf, callee, generics, args, arg_lvs
                     new_ok = vals["ELF32"]
                 else:
                     new_ok = Term("classsel", cls, vals["ELF32"], vals["ELF64"])
+            elif okv is not None:
+                new_ok = prog.subst(an, st, okv, sub_args)
         new_err = prog.subst(an, st, errv, sub_args) if errv is not None else None
         if new_ok is not None:
             for x in new_ok.subterms():
